@@ -195,7 +195,7 @@ PROPS = {
         "assumptions": COMMON_ASSUMPTIONS + ["the 2^32 word space is sampled"],
     },
     "C18": {
-        "mc": ["reader_q", "reader_t", "writer_q", "writer_t"], "gen": ["cursor", "vecwriter"],
+        "mc": ["reader_q", "reader_t", "writer_q", "writer_t"], "gen": ["cursor", "vecwriter"], "canonical": True,
         "rule": "every operation sequence of the cursor / buffer machines up to depth 3 (thorough: 4 / 5) explored by TLC "
                 "and replayed on SliceReader / VecWriter; long seeded random sequences",
         "assumptions": COMMON_ASSUMPTIONS + ["unchecked reads are only issued when enabled in the model"],
